@@ -776,7 +776,14 @@ func (c *configuration) write(tlsMgr *tlsManager) (err error) {
 	}
 
 	if globalContext.filters != nil {
-		globalContext.filters.WriteDiskConfig(config.Filtering)
+		// Write into a fresh copy and not into config.Filtering itself, since
+		// the latter is the very configuration structure that the filtering
+		// module is using, so copying into it and encoding it afterwards would
+		// race with the requests being filtered and with the HTTP handlers of
+		// the filtering module.
+		filteringConf := &filtering.Config{}
+		globalContext.filters.WriteDiskConfig(filteringConf)
+		config.Filtering = filteringConf
 		config.Filters = config.Filtering.Filters
 		config.WhitelistFilters = config.Filtering.WhitelistFilters
 		config.UserRules = config.Filtering.UserRules
